@@ -37,6 +37,12 @@ def unle : Bytes → Nat
 
 def zeros (n : Nat) : Bytes := List.replicate n 0
 
+/-- `n ≤ l.length` without walking the whole list (`lenGe_iff` in Lemmas) -/
+def lenGe {α : Type} : List α → Nat → Bool
+  | _, 0 => true
+  | [], _ + 1 => false
+  | _ :: l, n + 1 => lenGe l n
+
 structure Cfg where
   checkAfterRead : Bool
   versionOr : Bool
@@ -68,7 +74,9 @@ def nullIdx : Nat := Gen.Archive.nullPointer
 def archiveVersion : Nat := Gen.Archive.archiveVersion
 
 /-- requests above this many bytes are treated as failing allocations (`Err.alloc`) -/
-def allocLimit : Nat := 2 ^ 28
+def allocLimit : Nat := 2 ^ 20
+/-- `str::resize(n)` asks for `sizeof(strdata) + n + 1` bytes -/
+def strAlloc (n : Nat) : Nat := n + 25
 
 inductive Prim
   | i8 | i16 | i32 | i64 | u8 | u16 | u32 | u64 | chr | size | byte | f32 | f64 | bool | pos
@@ -203,7 +211,7 @@ inductive Res (α : Type) where
     (`none`: an uninitialised local) -/
 def readN (cfg : Cfg) (n : Nat) (old : Option Bytes) (s : RS) : Res Bytes :=
   if !s.good then .err .streamFail s
-  else if n ≤ s.rest.length then
+  else if lenGe s.rest n then
     .ok (s.rest.take n) { s with rest := s.rest.drop n, pos := s.pos + n }
   else
     let s' := { s with rest := [], pos := s.pos + s.rest.length, good := false }
@@ -235,8 +243,8 @@ def readStr (cfg : Cfg) (init : Bytes) (s : RS) : Res Bytes :=
   (readData cfg (Prim.size).tag 8 none s).bind fun lb s =>
     let n := unle lb
     if n = 0 then .ok init s
-    else if cfg.lengthChecked && n > s.rest.length then .err .streamFail s
-    else if n ≥ allocLimit then .err .alloc s
+    else if cfg.lengthChecked && !lenGe s.rest n then .err .streamFail s
+    else if strAlloc n ≥ allocLimit then .err .alloc s
     else readData cfg rawTag n (some (resized init n)) s
 
 /-- `classpointerList.AddObjectAt(i, o)` (preceded by the range check when the reader has one) -/
@@ -313,7 +321,7 @@ def readHeader (cfg : Cfg) (info : Info) (s : RS) : Res Unit :=
         if bad then .err .wrongVersion s else
         (readStr cfg info.name s).bind fun _ s =>
           (readPrim cfg .u32 s).bind fun n s =>
-            if cfg.lengthChecked && n > s.rest.length / 8 then .err .invalidHeader s
+            if cfg.lengthChecked && !lenGe s.rest (8 * n) then .err .invalidHeader s
             else if n * 8 ≥ allocLimit then .err .alloc s
             else .ok () { s with table := List.replicate n 0 }
 
